@@ -204,6 +204,10 @@ IMPLICIT_ONLY = {"ImplicitCastExpr", "ParenExpr", "ExprWithCleanups", "Materiali
                  "CXXBindTemporaryExpr", "ConstantExpr", "CXXDefaultArgExpr"}
 
 
+NORMALIZE = os.environ.get("PSV_NO_NORMALIZE") is None
+NORMALIZE_REL = os.environ.get("PSV_NO_NORMALIZE_REL") is None
+
+
 class Function:
     def __init__(self, d, unit):
         self.d = d
@@ -224,6 +228,101 @@ class Function:
         self.cfg = d.get("cfg")
         self._parent = None
         self._blocks = None
+        if NORMALIZE:
+            self._normalize()
+
+    # ---- normal form (semantics-preserving rewrites applied once, in place, when the function is loaded)
+    def _value_unused(self, i):
+        """True when the value of expression node i is discarded: it is a statement of its own, the init/inc part of a for, or
+        an operand of a comma operator whose own value is discarded (the left one always)."""
+        par = self.parent
+        p = par[i]
+        while p >= 0 and self.nodes[p]["k"] in ("ParenExpr", "ExprWithCleanups"):
+            i, p = p, par[p]
+        if p < 0:
+            return False
+        n = self.nodes[p]
+        k = n["k"]
+        if k in ("CompoundStmt", "LabelStmt", "CaseStmt", "DefaultStmt", "AttributedStmt"):
+            return True
+        if k == "ForStmt":
+            return i in (n.get("init"), n.get("inc"), n.get("body"))
+        if k == "IfStmt":
+            return i in (n.get("then"), n.get("else"))
+        if k in ("WhileStmt", "DoStmt", "CXXForRangeStmt"):
+            return i == n.get("body")
+        if k == "BinaryOperator" and n.get("op") == ",":
+            return n["ch"][0] == i or self._value_unused(p)
+        return False
+
+    def _normalize(self):
+        """N1: an increment or decrement whose value is discarded is written `x++` / `x--`: `++x`, `x += 1`, `x = x + 1`, `x = 1 + x`
+        (and the decrement forms) are brought to that form.  Only scalar built-in operators are touched (an overloaded
+        operator is a CXXOperatorCallExpr and stays as written)."""
+        for i, n in enumerate(self.nodes):
+            k = n["k"]
+            if k == "UnaryOperator" and n.get("op") in ("++", "--") and not n.get("postfix"):
+                if self._value_unused(i):
+                    n["postfix"] = True
+                    n["normalized"] = "prefix"
+            elif k == "CompoundAssignOperator" and n.get("op") in ("+=", "-="):
+                r = self.nodes[self.strip(n["ch"][1], casts=False)]
+                if r["k"] == "IntegerLiteral" and r.get("v") == 1 and self._value_unused(i):
+                    t = self.nodes[self.strip(n["ch"][0], casts=False)].get("t", "")
+                    if "float" in t or "double" in t:
+                        continue
+                    n["k"] = "UnaryOperator"
+                    n["op"] = "++" if n["op"] == "+=" else "--"
+                    n["postfix"] = True
+                    n["normalized"] = "compound"
+                    n["ch"] = [n["ch"][0]]
+            elif k == "BinaryOperator" and n.get("op") == "=":
+                l = self.strip(n["ch"][0], casts=False)
+                r = self.nodes[self.strip(n["ch"][1], casts=False)]
+                if self.nodes[l]["k"] != "DeclRefExpr" or r["k"] != "BinaryOperator" or r.get("op") not in ("+", "-"):
+                    continue
+                t = self.nodes[l].get("t", "")
+                if "float" in t or "double" in t or "*" in t:
+                    continue
+                a, b = (self.strip(x, casts=False) for x in r["ch"])
+                one = lambda x: self.nodes[x]["k"] == "IntegerLiteral" and self.nodes[x].get("v") == 1
+                same = lambda x: self.nodes[x]["k"] == "DeclRefExpr" and self.nodes[x]["decl"].get("id") == self.nodes[l]["decl"].get("id")
+                if ((same(a) and one(b)) or (r["op"] == "+" and one(a) and same(b))) and self._value_unused(i):
+                    n["k"] = "UnaryOperator"
+                    n["op"] = "++" if r["op"] == "+" else "--"
+                    n["postfix"] = True
+                    n["normalized"] = "assign"
+                    n["ch"] = [n["ch"][0]]
+        # N2: relational operators point left-to-right: `a > b` is `b < a`, `a >= b` is `b <= a` (built-in operators only; the
+        #     evaluation order of the operands of a relational operator is unspecified, so nothing observable changes)
+        # N3: `!(a == b)` is `a != b` and `!(a != b)` is `a == b` (true for NaN as well; orderings are NOT negated: !(a<b) differs from a>=b on NaN)
+        # N4: a literal operand of a commutative built-in operator sits on the right for + == != and on the left for *
+        if NORMALIZE_REL:
+            lit = lambda x: self.nodes[self.strip(x, casts=False)]["k"] in ("IntegerLiteral", "FloatingLiteral", "CharacterLiteral")
+            for i, n in enumerate(self.nodes):
+                if n["k"] != "BinaryOperator":
+                    continue
+                op = n.get("op")
+                if op in (">", ">="):
+                    n["op"] = "<" if op == ">" else "<="
+                    n["ch"] = [n["ch"][1], n["ch"][0]]
+                    n["normalized"] = "flipped"
+                elif op in ("+", "==", "!=") and lit(n["ch"][0]) and not lit(n["ch"][1]):
+                    n["ch"] = [n["ch"][1], n["ch"][0]]
+                    n["normalized"] = "swapped"
+                elif op == "*" and lit(n["ch"][1]) and not lit(n["ch"][0]):
+                    n["ch"] = [n["ch"][1], n["ch"][0]]
+                    n["normalized"] = "swapped"
+            for i, n in enumerate(self.nodes):
+                if n["k"] == "UnaryOperator" and n.get("op") == "!":
+                    c = self.strip(n["ch"][0], casts=False)
+                    cn = self.nodes[c]
+                    if cn["k"] == "BinaryOperator" and cn.get("op") in ("==", "!="):
+                        n.update({kk: vv for kk, vv in cn.items() if kk not in ("loc", "f")})
+                        n["op"] = "!=" if cn["op"] == "==" else "=="
+                        n["ch"] = list(cn["ch"])
+                        n["normalized"] = "negation folded"
+        self._parent = None
 
     # ---- tree
     @property
@@ -266,6 +365,23 @@ class Function:
         while i >= 0 and self.nodes[i]["k"] in S and self.ch(i):
             i = self.ch(i)[-1] if self.nodes[i]["k"] == "SubstNonTypeTemplateParmExpr" else self.ch(i)[0]
         return i
+
+    MIRROR = {"<": ">", "<=": ">=", ">": "<", ">=": "<=", "==": "==", "!=": "!="}
+
+    def oriented(self, c, left_is):
+        """(lhs, op, rhs) of comparison node c with the operand for which left_is(node id) holds on the left, the operator mirrored
+        when the operands had to be swapped (so rules need not care how the source — or the normal form — orients a comparison);
+        None if c is not a built-in comparison or neither operand qualifies."""
+        c = self.strip(c)
+        n = self.nodes[c]
+        if n["k"] != "BinaryOperator" or n.get("op") not in self.MIRROR:
+            return None
+        a, b = (self.strip(x) for x in n["ch"])
+        if left_is(a):
+            return a, n["op"], b
+        if left_is(b):
+            return b, self.MIRROR[n["op"]], a
+        return None
 
     def ancestors(self, i):
         p = self.parent[i]
